@@ -17,7 +17,7 @@ cd /verif
 ev=/verif/_work/evidence_keep_$$; rm -rf $ev; mkdir -p $ev; cp /verif/evidence/*.json $ev/ 2>/dev/null
 for p in $props; do
   echo "== check $p against the changed tree:"
-  VERIF_REPO=$wt ./check $p --tier quick 2>&1 | grep -v conda | grep -E "VIOLATION|KNOWN|^\[" | head -4
+  VERIF_REPO=$wt ./check $p --tier quick 2>&1 | grep -v conda | grep -E "VIOLATION|^\[" | awk "/VIOLATION/{n++; if(n<=3) print; next} {print}"
 done
 cp $ev/*.json /verif/evidence/ 2>/dev/null; rm -rf $ev
 # restore generated constants for /repo
